@@ -439,6 +439,15 @@ def decode_dataclass(ti, d, tvmap, o):
         if type(f.metadata.get("deserialize")).__name__ == "_PassThrough":
             kwargs[n] = val  # documented field option: the value is taken over unchanged
             continue
+        des = f.metadata.get("deserialize")
+        if callable(des):
+            # documented field option: the callable replaces the type's own deserialization
+            try:
+                kwargs[n] = des(val)
+            except Exception as e:
+                _cf(e)
+                raise RefError("invalid", field_name=n, field_value=val, holder=cls) from e
+            continue
         try:
             kwargs[n] = ref_decode(ft, val, tv, o)
         except RefError as e:
